@@ -11,6 +11,7 @@ import (
 	"os/exec"
 	"path/filepath"
 	"runtime"
+	"runtime/pprof"
 	"sort"
 	"strings"
 	"sync"
@@ -32,6 +33,7 @@ type Scenario struct {
 	Split    bool // shard the level-2 subtrees of this scenario over the workers
 	NoCache  bool // cache-validation variant: explored without state caching
 	Pair     string // name of the scenario whose outcome/terminal sets must equal this one's (cache validation)
+	Weight   int    // scheduling hint: heavier scenarios are started first
 	// Seq marks a scenario that is a plain sequential enumeration (no schedules): Body runs
 	// once outside the scheduler and reports through SeqResult.
 	Seq func(r *SeqResult)
@@ -56,6 +58,13 @@ type Check struct {
 }
 
 var Registry = map[string]*Check{}
+
+func repoRoot() string {
+	if r := os.Getenv("VERIF_REPO"); r != "" {
+		return r
+	}
+	return "/repo"
+}
 
 // ScenResult is what a worker reports per scenario.
 type ScenResult struct {
@@ -100,10 +109,37 @@ func RunWorker(id, tier string, shard, nshards int, out string) {
 	log.SetOutput(io.Discard)
 	c := Registry[id]
 	deadline := time.Now().Add(budget(c, tier))
+	if pf := os.Getenv("VERIF_CPUPROF"); pf != "" && shard == 0 {
+		if f, err := os.Create(pf); err == nil {
+			pprof.StartCPUProfile(f)
+			defer pprof.StopCPUProfile()
+		}
+	}
 	var res workerOut
-	for i, sc := range c.Scenarios(tier) {
+	claimDir := os.Getenv("VERIF_CLAIMDIR")
+	mine := func(i int) bool {
+		if claimDir == "" {
+			return i%nshards == shard
+		}
+		// dynamic distribution: the first worker to create the claim file owns the scenario
+		f, err := os.OpenFile(filepath.Join(claimDir, fmt.Sprintf("s%d", i)), os.O_CREATE|os.O_EXCL|os.O_WRONLY, 0o644)
+		if err != nil {
+			return false
+		}
+		f.Close()
+		return true
+	}
+	scs := c.Scenarios(tier)
+	// heavier scenarios first (Weight is a hint; ties keep the declared order)
+	order := make([]int, len(scs))
+	for i := range order {
+		order[i] = i
+	}
+	sort.SliceStable(order, func(a, b int) bool { return scs[order[a]].Weight > scs[order[b]].Weight })
+	for _, i := range order {
+		sc := scs[i]
 		if sc.Seq != nil {
-			if i%nshards != shard {
+			if !mine(i) {
 				continue
 			}
 			var r SeqResult
@@ -119,7 +155,7 @@ func RunWorker(id, tier string, shard, nshards int, out string) {
 				Violation: r.Violation, SeqCase: r.Case, Sample: r.Sample, Outcomes: map[string]int{}})
 			continue
 		}
-		if !sc.Split && i%nshards != shard {
+		if !sc.Split && !mine(i) {
 			continue
 		}
 		e := &vs.Explorer{Bound: sc.Bound, Horizon: sc.Horizon, Body: sc.Body, Check: sc.Check, Outcome: sc.Outcome, NoCache: sc.NoCache, Deadline: deadline}
@@ -199,7 +235,7 @@ func RunParent(ctx *ev.Ctx) {
 			defer wg.Done()
 			o := filepath.Join(dir, fmt.Sprintf("w%d.json", i))
 			cmd := exec.Command(os.Args[0], ctx.ID, "--tier", ctx.Tier, "--shard", fmt.Sprintf("%d/%d", i, n), "--out", o)
-			cmd.Env = append(os.Environ(), "GOMAXPROCS=1")
+			cmd.Env = append(os.Environ(), "GOMAXPROCS=1", "VERIF_CLAIMDIR="+dir)
 			cmd.Stderr = os.Stderr
 			cmd.Stdout = os.Stderr
 			if err := cmd.Run(); err != nil {
